@@ -12,6 +12,7 @@
 package c13
 
 import (
+	"bytes"
 	"fmt"
 	"net/netip"
 	"os"
@@ -346,9 +347,107 @@ func run(e *core.Env) {
 				e.Infra("listener gone")
 			}
 			simnet.Wait()
-			mode := tp.Intn(4)
+			mode := tp.Intn(6)
 			w.what = fmt.Sprintf("raw connection mode %d", mode)
 			switch mode {
+			case 4, 5:
+				// A remote end with a valid identity of its own that signs everything correctly -
+				// the shipped handshake code produces its messages - but puts oversized or
+				// wrongly typed values into its handshake response. The frame is assembled by
+				// hand: a peer is not bound by the size limits of our frame builder.
+				oid := ident.Get(ident.Routable, 34+tp.Intn(4))
+				O, err := node.New("O", oid, node.BaseStore(oid), node.Options{LinkOnly: true})
+				if err != nil {
+					e.Infra("node: %v", err)
+				}
+				take := func() frame.Frame {
+					simnet.Wait()
+					for _, r := range w.cn.Pending() {
+						if r.Conn == pair && r.Dir == 1 && !r.EOF && len(r.Data) > 2 {
+							w.cn.Remove(r)
+							d := r.Data[2:]
+							ps := O.Inst.Builder.GetPooledSlice(len(d))
+							copy(ps, d)
+							if f, err := O.Inst.Builder.ParseFrame(ps[:len(d)], ps, 0); err == nil {
+								return f
+							}
+							return nil
+						}
+					}
+					return nil
+				}
+				sendRaw := func(f frame.Frame) {
+					d, err := f.FrameDataWithMargins(0, 0)
+					if err != nil {
+						return
+					}
+					rec := make([]byte, 2+len(d))
+					m.PutUint16(rec[:2], uint16(len(rec)))
+					copy(rec[2:], d)
+					w.cn.DeliverBytes(pair.B, rec, false)
+				}
+				hs, oReq, err := O.Peering.VerifNewHandshake(true)
+				if err != nil {
+					e.Infra("handshake state: %v", err)
+				}
+				sendRaw(oReq)
+				vReq := take()
+				if vReq == nil {
+					break
+				}
+				oResp, err := hs.Handle(vReq)
+				if err != nil || oResp == nil {
+					break
+				}
+				var rm map[string]any
+				if cbor.Unmarshal(oResp.MessageData(), &rm) != nil {
+					break
+				}
+				big := []int{300, 2500, 9000, 16500, 17000, 30000, 60000}[tp.Intn(7)]
+				fill := []byte{1, 'a', '"', 0xff, 0}[tp.Intn(5)]
+				switch tp.Intn(6) {
+				case 0, 1:
+					rm["kxt"] = strings.Repeat(string([]byte{fill}), big)
+				case 2:
+					rm["kx"] = bytes.Repeat([]byte{fill}, big)
+				case 3:
+					rm["err"] = strings.Repeat(string([]byte{fill}), big)
+				case 4:
+					rm["c"] = bytes.Repeat([]byte{fill}, big)
+				default:
+					rm[cborKeys[tp.Intn(len(cborKeys))]] = genValue(tp, 38)
+					rm["kxt"] = genValue(tp, 38)
+				}
+				msg, _ := cbor.Marshal(rm)
+				if 48+1+2+len(msg)+64 > 65000 {
+					msg = msg[:65000-115]
+				}
+				raw := make([]byte, 48+1+2+len(msg)+64)
+				raw[0], raw[4] = 1, byte(frame.RouterPing)
+				sa, da := oid.IP.As16(), V.IP.As16()
+				copy(raw[16:32], sa[:])
+				copy(raw[32:48], da[:])
+				m.PutUint16(raw[49:51], uint16(len(msg)))
+				copy(raw[51:], msg)
+				ps := O.Inst.Builder.GetPooledSlice(len(raw))
+				if ps == nil {
+					break
+				}
+				copy(ps, raw)
+				f, err := O.Inst.Builder.ParseFrame(ps[:len(raw)], ps, 0)
+				if err != nil {
+					break
+				}
+				if fv, ok := f.(*frame.FrameV1); ok {
+					fv.SetTTL(0)
+					fv.SetSequenceTime(time.Now().Round(time.Millisecond).Add(5 * time.Millisecond))
+					_ = fv.SignRaw(oid.PrivateKey)
+					fv.SetTTL(1)
+					w.what = fmt.Sprintf("well-signed handshake response of %d bytes with an odd field, from a dialling stranger", len(raw))
+					sendRaw(fv)
+					e.Probe("well_signed_handshake_response_with_odd_fields")
+				}
+
 			case 0: // pure noise
 				for i, n := 0, 1+tp.Intn(4); i < n; i++ {
 					w.cn.DeliverBytes(pair.B, tp.Bytes(tp.Intn(66000)), false)
